@@ -5,9 +5,10 @@ import vlib
 
 def tlc_modes(ctx, modes):
     cases = []
+    deep = "" if ctx.quick else "_deep"      # thorough tier: more bases, byte-level corruptions, wider structures, more tags
     for m in modes:
-        ctx.tlc("MCWire", "Wire_%s.cfg" % m)
-        g = ctx.tlc("MCWire", "Wire_%s_gen.cfg" % m, workers=4, count=False)
+        ctx.tlc("MCWire", "Wire_%s%s.cfg" % (m, deep))
+        g = ctx.tlc("MCWire", "Wire_%s%s_gen.cfg" % (m, deep), workers=4, count=False)
         cs = g.printed("CASE")
         if not cs:
             raise vlib.Inconclusive("no cases for mode " + m)
